@@ -10,6 +10,7 @@ import (
 	"path/filepath"
 	"strings"
 	"sync"
+	"syscall"
 	"time"
 )
 
@@ -26,11 +27,14 @@ type solverSpec struct {
 	args func(file string, timeoutS int) []string
 }
 
+// Time budgets are CPU seconds of the solver process (ulimit -t), so that a verdict does not depend on how
+// loaded the machine is; the wall-clock limits passed to the solvers and to the context are only a distant
+// safety net (10x).
 var solvers = []solverSpec{
-	{"z3-new", func(f string, t int) []string { return []string{"z3-new", fmt.Sprintf("-T:%d", t), f} }},
-	{"z3", func(f string, t int) []string { return []string{"z3", fmt.Sprintf("-T:%d", t), f} }},
+	{"z3-new", func(f string, t int) []string { return []string{"z3-new", fmt.Sprintf("-T:%d", 10*t+10), f} }},
+	{"z3", func(f string, t int) []string { return []string{"z3", fmt.Sprintf("-T:%d", 10*t+10), f} }},
 	{"cvc5", func(f string, t int) []string {
-		return []string{"cvc5", fmt.Sprintf("--tlimit=%d", t*1000), "--full-saturate-quant", f}
+		return []string{"cvc5", fmt.Sprintf("--tlimit=%d", (10*t+10)*1000), "--full-saturate-quant", f}
 	}},
 }
 
@@ -44,15 +48,22 @@ func runSolver(ctx context.Context, sp solverSpec, file string, timeoutS int) So
 	procSem <- struct{}{}
 	defer func() { <-procSem }()
 	args := sp.args(file, timeoutS)
-	cctx, cancel := context.WithTimeout(ctx, time.Duration(timeoutS+2)*time.Second)
+	cctx, cancel := context.WithTimeout(ctx, time.Duration(10*timeoutS+15)*time.Second)
 	defer cancel()
-	cmd := exec.CommandContext(cctx, args[0], args[1:]...)
+	sh := append([]string{"-c", fmt.Sprintf("ulimit -t %d; exec \"$@\"", timeoutS), "sh"}, args...)
+	cmd := exec.CommandContext(cctx, "/bin/sh", sh...)
 	var out bytes.Buffer
 	cmd.Stdout = &out
 	cmd.Stderr = &out
 	t0 := time.Now()
-	_ = cmd.Run()
+	runErr := cmd.Run()
 	ms := time.Since(t0).Milliseconds()
+	killed := false
+	if ee, ok := runErr.(*exec.ExitError); ok {
+		if ws, ok := ee.Sys().(syscall.WaitStatus); ok && ws.Signaled() {
+			killed = true // CPU limit (SIGXCPU/SIGKILL) or cancelled
+		}
+	}
 	txt := out.String()
 	first := ""
 	for _, ln := range strings.Split(txt, "\n") {
@@ -74,7 +85,7 @@ func runSolver(ctx context.Context, sp solverSpec, file string, timeoutS int) So
 	case "timeout":
 		r.Status = "timeout"
 	default:
-		if cctx.Err() != nil {
+		if cctx.Err() != nil || killed {
 			r.Status = "timeout"
 		} else if strings.Contains(txt, "timeout") || strings.Contains(txt, "interrupted") {
 			r.Status = "timeout"
